@@ -287,6 +287,16 @@ func VerifResend() {
 // of the regions in the batch, every iteration order of the per-region map): the cellblocks
 // follow the order of the region actions in the request, so that the server, which hands out
 // cells sequentially, gives every mutation its own cells.
+// vOnlyGets: VerifMultiFrame builds gets only (more calls, every assignment of calls to regions).
+var vOnlyGets bool
+
+// VerifMultiFrameGets: CALLS gets over two regions in every order (A B A B ...): each action is
+// listed under the region of its own call.
+func VerifMultiFrameGets() {
+	vOnlyGets = true
+	VerifMultiFrame()
+}
+
 func VerifMultiFrame() {
 	conn := &vConn{}
 	c := vNewClient(conn, 4)
@@ -300,7 +310,7 @@ func VerifMultiFrame() {
 		if verifBool() {
 			reg = regB
 		}
-		if verifBool() {
+		if vOnlyGets || verifBool() {
 			calls = append(calls, vGet(ctx, vKeys[i], reg))
 		} else {
 			calls = append(calls, vPutVals(ctx, vKeys[i], reg, 1+verifInt(0, 1)))
